@@ -798,6 +798,7 @@ func main() {
 		c := genCase(run.Seed, *one)
 		b, _ := json.MarshalIndent(c, "", " ")
 		fmt.Printf("%s\nquery: %s\nresult: %q\n", b, c.query(), runCase(c))
+		fmt.Printf("adm: %s\n", lastAdm)
 		return
 	}
 	run.SetRule("case = f(seed, index): seed queries over a kitchen-sink schema mutated at token and byte level (incl. invalid UTF-8), random token soups, deep/wide families, random variables JSON and operation names, resolver worlds returning ordinary values of every kind (NaN/Inf, typed nil, value-kind errors, wrong kinds, promises); entry points ParseAndValidate(+cost), Execute, Subscribe(+event), HTTP GET/POST/graphql. distinct = distinct (query, vars, op, entry, world); non-trivial = the request got past parsing (reached validation or execution)")
